@@ -386,6 +386,28 @@ lazy["builtins.any"] = _quant_lazy("any")
 def _sorted_lazy(ex, node, f):
     """sorted(xs, key=len) for a list of sets: some rearrangement of xs (same elements, same
     length) in which set sizes never decrease (TB-py)"""
+    if len(node.args) == 1 and not node.keywords:
+        # sorted(xs) of ints: the same elements (same length) in non-decreasing order (TB-py)
+        xs = ex.eval(node.args[0])
+        if isinstance(xs, VDict):
+            xs = xs.keylist()
+        if isinstance(xs, VSet) and xs.et is TInt:
+            xs = xs.enum()
+        if not (isinstance(xs, VList) and xs.et is TInt):
+            raise Unsupported("sorted() of something other than ints")
+        LT = xs.LT
+        mem, _w = L.mem_theory(L.Int)
+        r = ex.st.fresh_const("sorted", LT.sort)
+        i, j = z3.Ints("_srt_i _srt_j")
+        ex.st.assume(LT.len(r) == LT.len(xs.t))
+        ex.st.assume(L.Forall([i], [LT.at(r, i)], z3.Implies(z3.And(0 <= i, i < LT.len(r)), mem(xs.t, LT.at(r, i))), "sorted.elements.from.input"))
+        ex.st.assume(L.Forall([i], [LT.at(xs.t, i)], z3.Implies(z3.And(0 <= i, i < LT.len(r)), mem(r, LT.at(xs.t, i))), "sorted.elements.kept"))
+        ex.st.assume(L.Forall([i, j], [LT.at(r, i), LT.at(r, j)], z3.Implies(z3.And(0 <= i, i <= j, j < LT.len(r)), LT.at(r, i) <= LT.at(r, j)), "sorted.ascending"))
+        ex.trusted = getattr(ex, "trusted", set())
+        ex.trusted.add("TB-py")
+        res = VList(r, TInt)
+        ex.st.env["__sorted_last"] = res  # ghost name: the most recent sorted() result (for ghost outputs)
+        return res
     if len(node.args) != 1 or len(node.keywords) != 1 or node.keywords[0].arg != "key":
         raise Unsupported("sorted() of this shape")
     kf = node.keywords[0].value
